@@ -1,10 +1,15 @@
 (* C12 -- Mangle window functions decide point membership exactly as the caps define.
+   The algorithmic model (in_polygon, in_window, set_use_caps, balkans_slice, is_cap_used, usencaps, same_cap) is built
+   from Generated/Mangle.v and the real-valued formula gen_is_in_cap / gen_cap_distance / gen_x0..2 is
+   Generated/MangleR.v: both are REGENERATED from pydl/pydlutils/mangle.py and pydl/photoop/window.py on every run
+   (translate/c12.py), so the theorems below hold or fail with the source.
    Property theorems only; each is closed by `exact` and followed by Print Assumptions.
    Theorems over R (the arccos formula of cap_distance) depend on the axioms of Coq's standard
    real-number library; everything about the executable model (Q, Z, lists) is axiom-free. *)
 From Coq Require Import ZArith QArith Qabs Qreals Reals List Bool.
 Import ListNotations.
-From PV Require Import C12.Model C12.Arccos C12.Proofs C12.SetUse C12.Storage C12.Bridge C12.Region.
+From PV Require Import C12.Spec Generated.Mangle C12.RBase Generated.MangleR C12.Model C12.Arccos C12.Proofs C12.SetUse
+  C12.Storage C12.Bridge C12.Region C12.RaDec.
 Open Scope Z_scope.
 
 (* ---- the code's formula is the property's algebraic test (over the reals) ---- *)
@@ -14,36 +19,66 @@ Theorem C12_arccos_test_equiv : forall d c : R, (-1 <= d <= 1)%R -> (0 <= c <= 2
 Proof. exact arccos_test_equiv. Qed.
 Print Assumptions C12_arccos_test_equiv.
 
-(* cap_distance_R = degrees(acos(1-|cm|) - acos d), negated for cm < 0; is_in_cap = (>= 0) *)
+(* gen_is_in_cap cm d  =  gen_cap_distance cm d >= 0  with  gen_cap_distance = degrees(acos(1-|cm|) - acos(clip d)),
+   times -1 for cm < 0: the text of cap_distance / is_in_cap *)
 Theorem C12_cap_distance_sign : forall cm d : R, (-1 <= d <= 1)%R -> (-2 <= cm <= 2)%R ->
-  ((cap_distance_R cm d >= 0)%R <-> if Rlt_dec cm 0 then (- cm <= 1 - d)%R else (1 - d <= cm)%R).
+  (gen_is_in_cap cm d <-> if Rlt_dec cm 0 then (- cm <= 1 - d)%R else (1 - d <= cm)%R).
 Proof. exact cap_distance_sign. Qed.
 Print Assumptions C12_cap_distance_sign.
 
-(* with the dot product clipped to [-1,1] (the repair of defect #6) a rounded d > 1 is harmless *)
-Theorem C12_cap_distance_clipped_sign : forall cm d : R, (-1 <= d)%R -> (-2 <= cm <= 2)%R ->
-  ((cap_distance_R cm (clip d) >= 0)%R <->
-   if Rlt_dec cm 0 then (- cm <= 1 - clip d)%R else (1 - d <= cm)%R).
+(* thanks to the clip a rounded dot product d > 1 (point at the cap's own centre) is harmless *)
+Theorem C12_cap_distance_clipped_sign : forall cm d : R, (-1 <= d)%R -> (0 <= cm <= 2)%R ->
+  (gen_is_in_cap cm d <-> (1 - d <= cm)%R).
 Proof. exact cap_distance_clipped_sign. Qed.
 Print Assumptions C12_cap_distance_clipped_sign.
 
+Theorem C12_centre_always_inside : forall cm d : R, (1 <= d)%R -> (0 <= cm <= 2)%R -> gen_is_in_cap cm d.
+Proof. exact centre_always_inside. Qed.
+Print Assumptions C12_centre_always_inside.
+
 (* cm < 0 is the complement -- off the common boundary, where the code answers "inside" for both signs *)
 Theorem C12_neg_cap_is_complement_R : forall c d : R, (-1 <= d <= 1)%R -> (0 < c <= 2)%R -> (1 - d <> c)%R ->
-  ((cap_distance_R (- c) d >= 0)%R <-> ~ (cap_distance_R c d >= 0)%R).
+  (gen_is_in_cap (- c) d <-> ~ gen_is_in_cap c d).
 Proof. exact neg_cap_is_complement. Qed.
 Print Assumptions C12_neg_cap_is_complement_R.
 
 Theorem C12_boundary_in_both_R : forall c d : R, (-1 <= d <= 1)%R -> (0 < c <= 2)%R -> (1 - d = c)%R ->
-  (cap_distance_R (- c) d >= 0)%R /\ (cap_distance_R c d >= 0)%R.
+  gen_is_in_cap (- c) d /\ gen_is_in_cap c d.
 Proof. exact Arccos.boundary_in_both. Qed.
 Print Assumptions C12_boundary_in_both_R.
+
+(* ---- RA/Dec input: angles_to_x(points, latitude=True) as extracted (gen_phi, gen_theta_lat, gen_x0..2) ---- *)
+
+Theorem C12_angles_to_x_is_unit_vector : forall ra dec : R,
+  angles_to_x_lat ra dec = radec_unit ra dec /\ unitR (radec_unit ra dec).
+Proof. exact (fun ra dec => conj (angles_to_x_lat_is_radec_unit ra dec) (radec_unit_is_unit ra dec)). Qed.
+Print Assumptions C12_angles_to_x_is_unit_vector.
+
+(* membership decided on RA/Dec input = the property's cap test on (cos dec cos ra, cos dec sin ra, sin dec) *)
+Theorem C12_radec_membership : forall x cm ra dec, unitR x -> (-2 <= cm <= 2)%R ->
+  (gen_is_in_cap cm (dotR (angles_to_x_lat ra dec) x) <->
+   if Rlt_dec cm 0 then (- cm <= 1 - dotR (radec_unit ra dec) x)%R else (1 - dotR (radec_unit ra dec) x <= cm)%R).
+Proof. exact radec_membership. Qed.
+Print Assumptions C12_radec_membership.
+
+Theorem C12_radec_and_cartesian_agree : forall x cm ra dec,
+  gen_is_in_cap cm (dotR (angles_to_x_lat ra dec) x) <-> gen_is_in_cap cm (dotR (radec_unit ra dec) x).
+Proof. exact radec_and_cartesian_agree. Qed.
+Print Assumptions C12_radec_and_cartesian_agree.
 
 (* the executable cap test of the model, on rationals, IS the sign test of the code's formula on the same numbers *)
 Theorem C12_in_cap_is_arccos_test : forall c p,
   (-1 <= Q2R (dot (cx c) p) <= 1)%R -> (-2 <= Q2R (ccm c) <= 2)%R ->
-  (in_cap c p = true <-> (cap_distance_R (Q2R (ccm c)) (Q2R (dot (cx c) p)) >= 0)%R).
+  (in_cap c p = true <-> gen_is_in_cap (Q2R (ccm c)) (Q2R (dot (cx c) p))).
 Proof. exact in_cap_is_arccos_test. Qed.
 Print Assumptions C12_in_cap_is_arccos_test.
+
+(* ... also when rounding pushed x.p above 1 (cm >= 0) *)
+Theorem C12_in_cap_is_arccos_test_pos : forall c p,
+  (-1 <= Q2R (dot (cx c) p))%R -> (0 <= Q2R (ccm c) <= 2)%R ->
+  (in_cap c p = true <-> gen_is_in_cap (Q2R (ccm c)) (Q2R (dot (cx c) p))).
+Proof. exact in_cap_is_arccos_test_pos. Qed.
+Print Assumptions C12_in_cap_is_arccos_test_pos.
 
 (* ---- caps (executable model over Q) ---- *)
 
@@ -72,9 +107,14 @@ Theorem C12_is_cap_used_testbit : forall u i, is_cap_used u i = Z.testbit u (Z.o
 Proof. exact is_cap_used_testbit. Qed.
 Print Assumptions C12_is_cap_used_testbit.
 
+(* the extracted restriction  usencaps = NCAPS; if ncaps > 0: usencaps = min(ncaps, NCAPS) *)
+Theorem C12_usencaps_is_spec : forall P ncaps, usencaps P ncaps = spec_usencaps P ncaps.
+Proof. exact usencaps_eq. Qed.
+Print Assumptions C12_usencaps_is_spec.
+
 Theorem C12_in_polygon_spec : forall P ncaps p, (pn P <= length (pcaps P))%nat ->
   (in_polygon P ncaps p = true <->
-   (forall i c, (i < usencaps P ncaps)%nat -> nth_error (pcaps P) i = Some c ->
+   (forall i c, (i < spec_usencaps P ncaps)%nat -> nth_error (pcaps P) i = Some c ->
                 Z.testbit (puse P) (Z.of_nat i) = true -> in_cap c p = true)).
 Proof. exact in_polygon_spec. Qed.
 Print Assumptions C12_in_polygon_spec.
@@ -179,6 +219,14 @@ Theorem C12_set_use_caps_spec : forall P idx o b,
 Proof. exact set_use_caps_spec. Qed.
 Print Assumptions C12_set_use_caps_spec.
 
+(* the extracted nested tests in front of the decrement = the documented notion of doubles *)
+Theorem C12_same_cap_spec : forall tol an a b,
+  same_cap tol an a b = true <->
+  (dist2 (cx a) (cx b) < tol * tol)%Q /\
+  ((Qabs (ccm a - ccm b) < tol)%Q \/ ((Qabs (ccm a + ccm b) < tol)%Q /\ an = false)).
+Proof. exact same_cap_spec. Qed.
+Print Assumptions C12_same_cap_spec.
+
 Theorem C12_kept_spec : forall dup sel j,
   kept dup sel j = true <->
   sel j = true /\ (forall i, (i < j)%nat -> kept dup sel i = true -> dup i j = false).
@@ -194,8 +242,8 @@ Proof. exact kept_spec_equiv. Qed.
 Print Assumptions C12_kept_spec_equiv.
 
 (* `use_caps -= 1 << j` never borrows: it is executed only with bit j set, so it clears that bit *)
-Theorem C12_decrement_is_clearbit : forall u j, is_cap_used u j = true ->
-  u - Z.shiftl 1 (Z.of_nat j) = Z.clearbit u (Z.of_nat j).
+Theorem C12_decrement_is_clearbit : forall u i j, is_cap_used u j = true ->
+  gen_clear_bit u i (Z.of_nat j) = Z.clearbit u (Z.of_nat j).
 Proof. exact decrement_is_clearbit. Qed.
 Print Assumptions C12_decrement_is_clearbit.
 
